@@ -155,6 +155,9 @@ func Gen(r *rand.Rand, cfg GenConfig) *Spec {
 			if cfg.Faults && r.IntN(3) == 0 {
 				c.Dup = []int{5, 20, 40}[r.IntN(3)]
 			}
+			if cfg.Faults && r.IntN(4) == 0 {
+				c.Late = []int{20, 50}[r.IntN(2)]
+			}
 		}
 		spec.Convs = append(spec.Convs, c)
 	}
